@@ -21,6 +21,7 @@ func init() {
 	vrt.Register("C04_helpers_iter", HelpersIter)
 	vrt.Register("C04_user_functions", UserFunctions)
 	vrt.Register("C04_token_programs", TokenPrograms)
+	vrt.Register("C04_library_helpers", LibraryHelpers)
 }
 
 type S struct {
@@ -341,4 +342,59 @@ func TokenPrograms() {
 	} else {
 		total("<%= "+src+"%>", ctx)
 	}
+}
+
+// the built-in helpers that sit on libraries (flect behind pathFor and the
+// inflection helpers, fmt behind debug/inspect): executed from their source like
+// plush itself; every value kind plus the shapes pathFor looks for
+type withID struct{ ID int }
+type withSlug struct{ Slug string }
+type withBoth struct {
+	ID   int
+	Slug string
+}
+type pathable struct{}
+
+func (pathable) ToPath() string { return "/p" }
+
+type paramable struct{ N int }
+
+func (p paramable) ToParam() string { return "x" }
+
+func LibraryHelpers() {
+	ctx := plush.NewContext()
+	var a interface{}
+	k := vrt.Choice(nKinds + 10)
+	switch k - nKinds {
+	case 0:
+		a = withID{ID: vrt.Int()}
+	case 1:
+		a = &withID{ID: 3}
+	case 2:
+		a = (*withID)(nil)
+	case 3:
+		a = withSlug{Slug: vrt.Bytes(1)}
+	case 4:
+		a = []*withID{nil}
+	case 5:
+		a = []interface{}{withBoth{ID: 1, Slug: "s"}, "x", nil}
+	case 6:
+		a = pathable{}
+	case 7:
+		a = (*pathable)(nil)
+	case 8:
+		a = paramable{N: 1}
+	case 9:
+		a = []withID{}
+	default:
+		a = val(k)
+	}
+	ctx.Set("a", a)
+	hs := []string{
+		"pathFor(a)", "pathFor([a, a])", "pathFor()", "debug(a)", "inspect(a)", "debug()",
+		"pluralize(a)", "singularize(a)", "capitalize(a)", "camelize(a)", "underscore(a)", "humanize(a)", "titleize(a)", "ordinalize(a)", "dasherize(a)",
+		"env(a)", "envOr(a, a)", "form(a)", "paginator(a)",
+	}
+	h := hs[vrt.Choice(len(hs))]
+	total("<%= "+h+" %>", ctx)
 }
